@@ -177,6 +177,7 @@ def main():
     ap.add_argument("--budget", type=float, default=None)
     ap.add_argument("--replay", default=None)
     ap.add_argument("--verbose", action="store_true")
+    ap.add_argument("--warmup", action="store_true", help="run the workload only to fill the JAX cache; no evidence, exit 0")
     a = ap.parse_args()
     os.makedirs(os.path.join(_env.VERIF, "out"), exist_ok=True)
     if not _env.ensure_deps():
@@ -189,6 +190,10 @@ def main():
     t0 = time.time()
     budget = a.budget or BUDGET[a.tier]
     results, problems, tmp = run_shards(a.prop, a.tier, a.seed, a.shards, budget)
+    if a.warmup:
+        import shutil
+        shutil.rmtree(tmp, ignore_errors=True)
+        sys.exit(0)
     m = merge(results)
     unknown, hits, open_findings = findings.classify(a.prop, m["violations"])
     wall = time.time() - t0
